@@ -15,7 +15,7 @@ RULE = ('routing tables of 0-5 anchored regex entries (overlapping prefixes, cat
         'history contains a repeat or a look-alike; distinct = digest of (table, history).')
 COMPONENTS = bc.COMPONENTS
 PROBES = ('hist.repeat', 'hist.lookalike', 'hist.own_source', 'hist.admin_endpoint', 'hist.fragment', 'hist.no_route', 'act.deliver', 'act.forward', 'act.delete',
-          'route.shadowed_entry')
+          'route.shadowed_entry', 'hist.burst')
 ASSUMPTIONS = ['destinations avoid the endpoints the bundled applications claim (ipn:100.1, configured SAND/SAFE endpoints)',
                'payloads begin with an octet that is not a decodable SAFE PDU', 'no report flags (C19 covers reports)']
 CHUNK = 25
@@ -67,7 +67,7 @@ def gen(ch, tier):
         elif kind == 4:
             item['dest'] = node_id
         hist.append(item)
-    return dict(scenario='bp_route', node_id=node_id, table=table, hist=hist)
+    return dict(scenario='bp_route', node_id=node_id, table=table, hist=hist, burst=ch.choice('burst', (1, 1, 2, 3, 5)))
 
 
 def encode(item):
@@ -130,45 +130,67 @@ def execute(plan, sched, verbose=False):
 def _drive(run, plan, har):
     seen = set()
     stats = run.stats
-    for (ix, item) in enumerate(plan['hist']):
-        want = model_action(plan, item, seen)
-        if item['frag'] and want == 'deliver':
-            # reassembly belongs to C06: keep fragments on non-deliver routes
-            seen.discard(ident_of(item))
-            continue
-        marks = (len(har.delivered['n1']), len(har.cl_out['n1']))
-        rec = har.receive('n1', encode(item))
+    burst = max(1, plan.get('burst', 1))
+    hist = list(enumerate(plan['hist']))
+    if burst > 1:
+        stats['hist.burst'] = 1
+    for base in range(0, len(hist), burst):
+        # a burst of receptions reaches the agent before its main loop runs again (several transfers out of one socket read)
+        expected_fwd = []
+        fwd_mark = len(har.cl_out['n1'])
+        for (ix, item) in hist[base:base + burst]:
+            want = model_action(plan, item, seen)
+            if item['frag'] and want == 'deliver':
+                # reassembly belongs to C06: keep fragments on non-deliver routes
+                seen.discard(ident_of(item))
+                continue
+            mark = len(har.delivered['n1'])
+            rec = har.receive('n1', encode(item))
+            if burst == 1:
+                har.settle()
+            dels = har.delivered['n1'][mark:]
+            where = 'reception #%d %r (model: %s)' % (ix, {key: item[key] for key in ('source', 'time', 'seqno', 'dest', 'frag')}, want)
+            if want is None:
+                stats['act.none'] = stats.get('act.none', 0) + 1
+            else:
+                stats['act.' + want] = stats.get('act.' + want, 0) + 1
+            exp_del = 1 if want == 'deliver' else 0
+            kind = 'repeat' if want is None and item['source'] != plan['node_id'] else ('own-source' if want is None else want)
+            if len(dels) != exp_del:
+                run.viols.append(('deliver', '%s-delivered-%d' % (kind, len(dels)), '%d deliveries, expected %d at %s; recv error %s' % (len(dels), exp_del, where, rec['error'])))
+                return
+            if dels and (dels[0]['ident'][:5] != ident_of(item)[:5] or dels[0]['payload'] != bc.body(item['tag'], item['plen'])):
+                run.viols.append(('deliver', 'wrong-bundle', 'delivered %r, received %r' % (dels[0]['ident'], ident_of(item))))
+                return
+            if want == 'forward':
+                expected_fwd.append((ix, item, kind, where, rec))
+            else:
+                expected_fwd.append((ix, None, kind, where, rec))
         har.settle()
-        dels = har.delivered['n1'][marks[0]:]
-        outs = har.cl_out['n1'][marks[1]:]
+        outs = har.cl_out['n1'][fwd_mark:]
         (decoded, errs) = bc.decode_outputs(outs)
         fwds = [dec for dec in decoded if not bc.is_admin(dec)]
         rpts = [dec for dec in decoded if bc.is_admin(dec)]
-        where = 'reception #%d %r (model: %s)' % (ix, {key: item[key] for key in ('source', 'time', 'seqno', 'dest', 'frag')}, want)
-        if want is None:
-            stats['act.none'] = stats.get('act.none', 0) + 1
-        else:
-            stats['act.' + want] = stats.get('act.' + want, 0) + 1
-        exp_del = 1 if want == 'deliver' else 0
-        exp_fwd = 1 if want == 'forward' else 0
-        kind = 'repeat' if want is None and item['source'] != plan['node_id'] else ('own-source' if want is None else want)
-        if len(dels) != exp_del:
-            run.viols.append(('deliver', '%s-delivered-%d' % (kind, len(dels)), '%d deliveries, expected %d at %s; recv error %s' % (len(dels), exp_del, where, rec['error'])))
-            return
-        if len(fwds) != exp_fwd:
-            run.viols.append(('forward', '%s-forwarded-%d' % (kind, len(fwds)), '%d forwards, expected %d at %s; recv error %s' % (len(fwds), exp_fwd, where, rec['error'])))
+        wanted = [entry for entry in expected_fwd if entry[1] is not None]
+        where = wanted[0][3] if wanted else (expected_fwd[0][3] if expected_fwd else 'burst at #%d' % base)
+        kind = wanted[0][2] if wanted else (expected_fwd[-1][2] if expected_fwd else 'none')
+        if burst == 1:
+            if len(fwds) != len(wanted):
+                rec = expected_fwd[0][4] if expected_fwd else {'error': None}
+                run.viols.append(('forward', '%s-forwarded-%d' % (kind, len(fwds)), '%d forwards, expected %d at %s; recv error %s' % (len(fwds), len(wanted), where, rec['error'])))
+                return
+        elif len(fwds) != len(wanted):
+            run.viols.append(('forward', 'burst-forwarded-%s' % ('fewer' if len(fwds) < len(wanted) else 'more'),
+                              '%d forwards after a burst of %d receptions, expected %d (first: %s)' % (len(fwds), burst, len(wanted), where)))
             return
         if rpts or errs:
             run.viols.append(('report', kind + '-unrequested-output', 'unexpected administrative or malformed output at %s' % where))
             return
-        if dels and (dels[0]['ident'][:5] != ident_of(item)[:5] or dels[0]['payload'] != bc.body(item['tag'], item['plen'])):
-            run.viols.append(('deliver', 'wrong-bundle', 'delivered %r, received %r' % (dels[0]['ident'], ident_of(item))))
+        got = sorted((rfc9171.ident(dec['primary']), dec['primary']['destination']) for dec in fwds)
+        exp = sorted((ident_of(item)[:5], item['dest']) for (_ix, item, _k, _w, _r) in wanted)
+        if got != exp:
+            run.viols.append(('forward', 'wrong-bundle', 'forwarded %r, expected %r' % (got, exp)))
             return
-        if fwds:
-            pri = fwds[0]['primary']
-            if rfc9171.ident(pri) != ident_of(item)[:5] or pri['destination'] != item['dest']:
-                run.viols.append(('forward', 'wrong-bundle', 'forwarded %r to %s, received %r to %s' % (rfc9171.ident(pri), pri['destination'], ident_of(item), item['dest'])))
-                return
 
 
 def judge(run):
